@@ -33,6 +33,13 @@ Comparison rule (compare: "tol").  s = ||A||_2.
       to 1e-10 ||A||, unit columns, smin(P) >= 1e-8, eigh: ||P^H P - I|| <= 1e-10, ascending; every spectrum lanczos_eigs /
       arnoldi_eigs computed with max_iters >= n consists of eigenpairs to 1e-6 ||A|| (conclusion of C10_lanczos_path /
       C10_arnoldi_path).
+  round 5 -- eigh on the projected T (eigh_observe): on EVERY real Lanczos run the argument T of the one xnp.eigh call inside
+      lanczos_eigs is read by the spy, the same eigh is called again; both results: T Y = Y diag(theta) to 1e-10 ||T|| (eigh_contract),
+      ||Y^H Y - I||_max <= 1e-10 and smin(Y) >= 1e-8 (eigh_independent, eigh_contract_unit), number of Ritz values = size of T.
+  round 5 -- caps BELOW n ('lanczos-d', 'lanczos/d', 'arnoldi-d', 'arnoldi/d'): no eigenpair of A is claimed.  Lanczos: the
+      conclusion of C10_lanczos_any_cap on the real output (ritz_oracle, 1e-8 ||A||): m <= min(cap, n) Ritz pairs, min(k, m)
+      returned = the extreme magnitudes AMONG THE COMPUTED Ritz values, orthonormal unit vectors, real values = Rayleigh quotients,
+      residuals of rank <= 1.  Arnoldi: the count and the selection only.  real = code: route and positions as for every case.
   power iteration, EVERY case (also those stopped by the cap), on the iterates the real run formed (arguments of A @ v,
       logged by RecDense), STEP_TOL = 1e-12:  number of products = iterations - 1 <= max_iter;  iterate j+1 = A v_j / ||A v_j||,
       unit norm;  returned value = conj(vprev) @ A vprev;  |value_j| <= ||A|| ||v_j||^2;  Hermitian A: Im value_j = 0;
@@ -72,6 +79,7 @@ PowerIteration = P.PowerIteration
 eig, eigmax, eigmin = E.eig, E.eigmax, E.eigmin
 
 MODULE = "ColaVerif.Properties.C10"
+SUBMODULES = ["ColaVerif.Properties.C10.CapsBelow"]     # round 5: C10_lanczos_any_cap, C10_lanczos_cap_one_ritz_not_eigen
 DRIVER = "DriverC10.lean"
 
 # Findings of this property.  FIXED in /repo (known_findings.json `fixed:`): 9624153 selection by position instead of
@@ -160,6 +168,7 @@ class Spy:
     def __init__(self, raising=False):
         self.raising = raising
         self.log = []
+        self.calls = []      # (tag, positional arguments, result): round 5, the projected T handed to eigh inside lanczos_eigs
         self.saved = []
 
     def __enter__(self):
@@ -176,6 +185,7 @@ class Spy:
                 raise _Routed(tag)
             r = orig(*a, **kw)
             self.log.append((tag, r))
+            self.calls.append((tag, a, r))
             return r
         w.__name__ = getattr(orig, "__name__", tag)
         return w
@@ -207,17 +217,27 @@ class Spy:
         return None
 
 
-KRYLOV_SPEC = re.compile(r"^(lanczos|arnoldi)(?:([+*])(\d+))?(?:@(.+))?$")
+KRYLOV_SPEC = re.compile(r"^(lanczos|arnoldi)(?:([+*/-])(\d+))?(?:@(.+))?$")
 
 
 def krylov_params(spec, n):
     """'arnoldi' / 'lanczos+3' / 'arnoldi*3@1e-18' / 'lanczos+1@0' -> (name, max_iters, tol or None):
-    cap n (bare), n + d ('+d'), d * n ('*d'); '@tol' sets the tolerance (default: the class default 1e-7)"""
+    cap n (bare), n + d ('+d'), d * n ('*d'), round 5 -- caps BELOW n: max(1, n - d) ('-d'), max(1, n // d) ('/d');
+    '@tol' sets the tolerance (default: the class default 1e-7)"""
     m = KRYLOV_SPEC.match(spec)
     if not m:
         return None
     name, op, d, tol = m.groups()
-    cap = n if op is None else (n + int(d) if op == "+" else n * int(d))
+    if op is None:
+        cap = n
+    elif op == "+":
+        cap = n + int(d)
+    elif op == "*":
+        cap = n * int(d)
+    elif op == "-":
+        cap = max(1, n - int(d))
+    else:
+        cap = max(1, n // int(d))
     return name, cap, (None if tol is None else float(tol))
 
 
@@ -332,6 +352,13 @@ def run_real(c, raising=False):
                 out["power_errors"] = np.asarray(r[2]["errors"])
                 out["power_rec"] = [np.asarray(x).reshape(-1) for x in getattr(op, "rec", [])]
                 out["power_ret"] = (np.asarray(r[1]), np.asarray(r[0]))
+        if not raising and p == "lanczos" and "exc" not in out:
+            # lanczos_eigs: `eigvals, eigvectors = xnp.eigh(T.to_dense())` -- the one eigh call of the run
+            ec = [(a, r) for t, a, r in spy.calls if t == "eigh"]
+            if len(ec) == 1 and len(ec[0][0]) >= 1:
+                out["lanczos_T"] = np.array(ec[0][0][0], copy=True)
+                out["lanczos_eigh"] = (np.array(ec[0][1][0], copy=True), np.array(ec[0][1][1], copy=True))
+            out["lanczos_eigh_calls"] = len(ec)
     out["dense"] = np.asarray(op.to_dense())
     out["dtype_complex"] = np.iscomplexobj(out["dense"])
     return out
@@ -636,6 +663,95 @@ def contract_check(A, path, cvals, cvecs, hermitian):
     return out
 
 
+EIGH_TOL = 1e-10     # round 5: the two eigh contracts of the Lanczos theorems, observed on the projected T of the real run
+
+
+def eigh_observe(T, spied, n):
+    """Round 5, AS_BUILT C10 'Not covered' (iii).  The hypotheses the Lanczos theorems ASSUME of `xnp.eigh` on the
+    projected tridiagonal matrix, observed on the REAL run: `T` is the argument lanczos_eigs handed to xnp.eigh (read by
+    the spy), `spied` = (values, Y) what that call returned; the SAME eigh (cola.backends.np_fns.eigh) is called again on
+    `T` and both results are examined:
+      eigh_contract (C14, hypothesis of C10_lanczos_path / _full / _caps_above_n / _spectrum):  m values, T Y = Y diag(theta)
+          to 1e-10 ||T||;
+      eigh_independent (C10_lanczos_spectrum / _of_grade: IsUnit of the eigenvector matrix) and eigh_contract_unit (C14,
+          hypothesis of C10_lanczos_any_cap):  ||Y^H Y - I||_max <= 1e-10 (so smin(Y) >= 1 - m 1e-10 > 0), smin(Y) >= 1e-8 recomputed;
+      ran_n_steps:  m = n (reported, not required: below n only C10_lanczos_any_cap applies).
+    -> (failures, info)"""
+    fails, info = [], {}
+    T = np.asarray(T)
+    m = T.shape[0] if T.ndim == 2 else -1
+    info["m"] = m
+    info["ran_n_steps"] = bool(m == n)
+    if T.ndim != 2 or T.shape[0] != T.shape[1] or m < 1 or m > n:
+        return [("contract-eigh-shape", f"projected matrix of shape {T.shape} for n = {n}")], info
+    tn = max(np.linalg.norm(T, 2), 1e-300)
+    if np.abs(T - T.conj().T).max() > 1e-12 * tn:
+        fails.append(("contract-eigh-input", "the projected matrix handed to eigh is not Hermitian"))
+    again = np_fns.eigh(np.array(T, copy=True))
+    info["recall_bit_equal"] = bool(np.array_equal(np.asarray(again[0]), spied[0]) and np.array_equal(np.asarray(again[1]), spied[1]))
+    dev_max, smin_min, res_max = 0.0, float("inf"), 0.0
+    for tag, (th, Y) in (("spied", spied), ("recall", again)):
+        th, Y = np.asarray(th), np.asarray(Y)
+        if th.shape != (m,) or Y.shape != (m, m) or not (np.all(np.isfinite(th)) and np.all(np.isfinite(Y))):
+            fails.append(("contract-eigh-shape", f"{tag}: values {th.shape}, vectors {Y.shape} for a {m} x {m} matrix"))
+            continue
+        res = np.abs(T @ Y - Y * th[None, :]).max() / tn
+        dev = np.abs(Y.conj().T @ Y - np.eye(m)).max()
+        smin = np.linalg.svd(Y, compute_uv=False)[-1]
+        dev_max, smin_min, res_max = max(dev_max, dev), min(smin_min, smin), max(res_max, res)
+        if res > EIGH_TOL:
+            fails.append(("contract-eigh-pairs", f"{tag}: max |T Y - Y diag(theta)| / ||T|| = {res:.3e}"))
+        if dev > EIGH_TOL:
+            fails.append(("contract-eigh-orthonormal", f"{tag}: max |Y^H Y - I| = {dev:.3e}"))
+        if smin < 1e-8:
+            fails.append(("contract-eigh-independent", f"{tag}: smallest singular value of Y {smin:.3e}"))
+    info.update(orth_dev=dev_max, smin=smin_min, residual=res_max)
+    return fails, info
+
+
+def ritz_oracle(A, k, which, vals, V, cvals, cvecs, cap, lanczos=True):
+    """Round 5, AS_BUILT C10 'Not covered' (vi): what is claimed of eig(A, k, which, Lanczos(max_iters = cap)) for a cap
+    BELOW n -- the conclusion of C10_lanczos_any_cap, evaluated on the real output (s = ||A||_2, 1e-8 s):
+      m = number of computed Ritz pairs <= min(cap, n);  min(k, m) pairs returned;  their magnitudes are the k extreme
+      magnitudes of the m COMPUTED Ritz values (not of the spectrum of A);  every computed vector is a unit vector, the
+      computed vectors are orthonormal, every value is real and is the Rayleigh quotient x^H A x of its vector;  all
+      residuals A x - theta x are multiples of ONE vector (second singular value of the residual matrix <= 1e-8 s).
+    NO eigenpair of A is claimed.  lanczos=False (Arnoldi rule, no theorem about a cap below n beyond C10_select): only the
+    count and the selection.  -> list of (failure, detail)"""
+    fails = []
+    n = A.shape[0]
+    s = max(np.linalg.norm(A, 2), 1e-300)
+    vals, V, cvals, X = np.asarray(vals), np.asarray(V), np.asarray(cvals), np.asarray(cvecs)
+    m = cvals.shape[0] if cvals.ndim == 1 else -1
+    if m < 1 or m > min(cap, n) or X.shape != (n, m):
+        return [("ritz-count", f"{cvals.shape} Ritz values, vectors {X.shape}, cap {cap}, n {n}")]
+    kk = min(k, m)
+    if vals.shape != (kk,) or V.shape != (n, kk):
+        return [("shape", f"values {vals.shape}, vectors {V.shape}, expected ({kk},) and ({n}, {kk})")]
+    if not (np.all(np.isfinite(cvals)) and np.all(np.isfinite(X))):
+        return [("non-finite", "nan / inf in the computed Ritz pairs")]
+    tol = 1e-8
+    mags = np.sort(np.abs(cvals))
+    want = mags[-kk:] if which != "SM" else mags[:kk]
+    if np.abs(np.sort(np.abs(vals)) - want).max() > 1e-6 * s:
+        fails.append(("selection", f"which={which} k={k}: returned magnitudes {np.sort(np.abs(vals)).tolist()}, the {kk} extreme "
+                                   f"of the {m} computed Ritz values are {want.tolist()}"))
+    if not lanczos:
+        return fails
+    if np.abs(np.linalg.norm(X, axis=0) - 1).max() > tol or np.abs(X.conj().T @ X - np.eye(m)).max() > tol:
+        fails.append(("ritz-not-orthonormal", f"max |X^H X - I| = {np.abs(X.conj().T @ X - np.eye(m)).max():.3e}"))
+    if np.iscomplexobj(cvals) and np.abs(cvals.imag).max() > tol * s:
+        fails.append(("ritz-not-real", f"values {cvals.tolist()}"))
+    ray = np.einsum("ij,ij->j", X.conj(), A @ X)
+    if np.abs(ray - cvals).max() > tol * s:
+        fails.append(("ritz-rayleigh", f"max |x^H A x - theta| = {np.abs(ray - cvals).max():.3e}"))
+    R = A @ X - X * cvals[None, :]
+    sv = np.linalg.svd(R, compute_uv=False)
+    if m >= 2 and sv[1] > tol * s:
+        fails.append(("ritz-residual-rank", f"second singular value of A X - X diag(theta): {sv[1]:.3e}"))
+    return fails
+
+
 def mag_ranks(vals, s):
     """magnitude ranks of a computed spectrum (equal within 1e-6 s: the same rank), in computed order"""
     mags = np.abs(np.asarray(vals))
@@ -701,12 +817,16 @@ def gen_cases(ctx, rng):
     # cap min(max_iters, n) of arnoldi_fact / lanczos is what keeps noise columns out of the Ritz problem
     arnoldi_above = [f"arnoldi{cap}@{tol}" for cap in ("+1", "+4", "*3") for tol in ("0", "1e-18")]
     lanczos_above = ["lanczos+1@0", "lanczos+4@1e-18", "lanczos*3@0"]
+    # round 5, caps BELOW n (max(1, n - d) / max(1, n // d)): Ritz values, no eigenpair claim (C10_lanczos_any_cap; for
+    # Arnoldi only the count and the selection among the computed values, C10_select)
+    lanczos_below = ["lanczos-1", "lanczos-2@0", "lanczos/2@1e-18"]
+    arnoldi_below = ["arnoldi-1@1e-18", "arnoldi/2"]
     for _ in range(reps):
         for family, algs0 in fam_algs.items():
             for n in sizes:
                 A, cplx, sa = gen_matrix(rng, family, n)
                 base = {"stream": "value", "family": family, "n": n, "cplx": cplx, "sa": sa, "A": enc_mat(A, cplx)}
-                algs = algs0 + arnoldi_above + (lanczos_above if sa else [])
+                algs = algs0 + arnoldi_above + (lanczos_above if sa else []) + arnoldi_below + (lanczos_below if sa else [])
                 for alg in algs:
                     for which in ("LM", "SM"):
                         for k in range(1, n + 1):
@@ -800,7 +920,16 @@ def run(ctx):
     gate = None
     gate_err = None
     try:
-        gate = common.lean_gate(ctx, MODULE)
+        gate = dict(common.lean_gate(ctx, MODULE))
+        for sub in SUBMODULES:
+            g = common.lean_gate(ctx, sub)
+            gate["obligations"] += g["obligations"]
+            gate["discharged"] += g["discharged"]
+            gate["theorems"] = sorted(set(gate["theorems"]) | set(g["theorems"]))
+            # one runnable line: the trailing shell comment of each part is dropped and written once at the end
+            parts = [x.replace("   # kernel re-check + #print axioms audit", "") for x in
+                     (gate["checker_cmd"], g["checker_cmd"].split("cd lean && ", 1)[-1])]
+            gate["checker_cmd"] = " && ".join(parts) + "   # kernel re-check + #print axioms audit"
     except common.LeanGateError as ex:
         gate_err = str(ex)
     t_gate = ctx.wall()
@@ -820,6 +949,9 @@ def run(ctx):
                       "values_compared": 0, "one_step_claims_checked": 0, "one_step_claims_at_cap": 0, "monotone_checked": 0,
                       "vectors_compared": 0, "vector_maxdiff": 0.0},
             "eigmax_eigmin": 0, "positions_checked": 0, "contract_checked": {},
+            "eigh_independent": {"observed": 0, "ran_n_steps": 0, "fewer_than_n_steps": 0, "cap_below_n": 0, "recall_bit_equal": 0,
+                                 "failed": 0, "max_orth_dev": 0.0, "min_smin": 1e300, "max_residual": 0.0, "tolerance": EIGH_TOL},
+            "caps_below": {},
             "lobpcg": {"checked": 0, "dropped_pair_wanted": 0}, "structural_exact": 0, "verdict_by_rule": {}}
     sigs = set()
     nontrivial = 0
@@ -1264,14 +1396,53 @@ def run(ctx):
                     fails, claimed = power_oracle(A, real, tol, max_iter, hermitian)
                     fails = fails + claims_power(c, real, tol, max_iter, hermitian)
                 else:
-                    fails = oracle_eig(A, c["k"], which, real["vals"], real["V"], hermitian)
+                    kp = krylov_params(c["alg"], n)
+                    below = kp is not None and kp[1] < n     # round 5: iteration cap below n
+                    if below and "computed_vals" in real:
+                        # no eigenpair of A is claimed: the Ritz statement of C10_lanczos_any_cap (Lanczos) / the count and
+                        # the selection among the computed values (Arnoldi, C10_select)
+                        fails = ritz_oracle(A, c["k"], which, real["vals"], real["V"], real["computed_vals"],
+                                            real["computed_vecs"], kp[1], lanczos=(real["path"] == "lanczos"))
+                        cb = dist["caps_below"]
+                        cb[real["path"]] = cb.get(real["path"], 0) + 1
+                        Xc, tc = np.asarray(real["computed_vecs"]), np.asarray(real["computed_vals"])
+                        if Xc.ndim == 2 and Xc.shape[1] == tc.shape[0] and tc.shape[0] >= 1:
+                            rr = np.linalg.norm(A @ Xc - Xc * tc[None, :], axis=0).max() / max(np.linalg.norm(A, 2), 1e-300)
+                            if rr > RES_TOL:
+                                cb["some_ritz_pair_is_no_eigenpair"] = cb.get("some_ritz_pair_is_no_eigenpair", 0) + 1
+                            cb["max_ritz_residual"] = max(cb.get("max_ritz_residual", 0.0), float(rr))
+                    else:
+                        fails = oracle_eig(A, c["k"], which, real["vals"], real["V"], hermitian)
                     if "computed_vals" not in real:
                         mism.append(("no-computed-spectrum", f"path {real['path']}"))
                     else:
                         pos = locate(real["vals"], real["computed_vals"])
                         sans = answers.get(real["select_id"], {"error": "no answer"})
-                        cfail = contract_check(A, real["path"], real["computed_vals"], real["computed_vecs"], hermitian)
-                        dist["contract_checked"][real["path"]] = dist["contract_checked"].get(real["path"], 0) + 1
+                        cfail = []
+                        if not below:
+                            cfail = contract_check(A, real["path"], real["computed_vals"], real["computed_vecs"], hermitian)
+                            dist["contract_checked"][real["path"]] = dist["contract_checked"].get(real["path"], 0) + 1
+                        if real["path"] == "lanczos":
+                            # round 5: the eigh contracts of the Lanczos theorems on the projected T of THIS run
+                            eo = dist["eigh_independent"]
+                            if "lanczos_T" not in real:
+                                cfail.append(("contract-eigh-not-observed", f"{real.get('lanczos_eigh_calls')} eigh calls inside "
+                                                                            "lanczos_eigs (expected exactly one)"))
+                            else:
+                                ef, ei = eigh_observe(real["lanczos_T"], real["lanczos_eigh"], n)
+                                cfail += ef
+                                eo["observed"] += 1
+                                eo["ran_n_steps" if ei.get("ran_n_steps") else "fewer_than_n_steps"] += 1
+                                eo["cap_below_n"] += 1 if below else 0
+                                eo["recall_bit_equal"] += 1 if ei.get("recall_bit_equal") else 0
+                                eo["failed"] += 1 if ef else 0
+                                if "orth_dev" in ei:
+                                    eo["max_orth_dev"] = max(eo["max_orth_dev"], float(ei["orth_dev"]))
+                                    eo["min_smin"] = min(eo["min_smin"], float(ei["smin"]))
+                                    eo["max_residual"] = max(eo["max_residual"], float(ei["residual"]))
+                                if np.asarray(real["computed_vals"]).shape[0] != ei.get("m"):
+                                    cfail.append(("contract-eigh-count", f"{np.asarray(real['computed_vals']).shape[0]} Ritz values "
+                                                                         f"from a {ei.get('m')} x {ei.get('m')} projected matrix"))
                         if cfail and not fails:
                             mism += cfail
                         if "error" in sans:
@@ -1341,7 +1512,8 @@ def run(ctx):
                  "indefinite, SelfAdjoint-declared or not; real with complex-conjugate pairs; complex), n = 2..10, every 1 <= k <= n, "
                  "which in {LM, SM, omitted}, alg in {omitted, Auto(), Auto(tol=1e-10, max_iter=500), Eig, Eigh, Lanczos(n), Lanczos(n+3), "
                  "Arnoldi(n), Arnoldi(n+3), Arnoldi(max_iters in {n+1, n+4, 3n}, tol in {0, 1e-18}), Lanczos(n+1, 0), Lanczos(n+4, 1e-18), "
-                 "Lanczos(3n, 0), PowerIteration(1e-10, 500)}, eigmax / eigmin; structural -- Identity, Diagonal (positive / mixed-sign / "
+                 "Lanczos(3n, 0), round 5 caps below n: Lanczos(n-1), Lanczos(n-2, 0), Lanczos(n//2, 1e-18), Arnoldi(n-1, 1e-18), Arnoldi(n//2) "
+                 "(each at least 1), PowerIteration(1e-10, 500)}, eigmax / eigmin; structural -- Identity, Diagonal (positive / mixed-sign / "
                  "complex / dyadic, unsorted), upper and lower Triangular (real f64 / f32 and complex, distinct diagonals) with exact "
                  "small entries, every k, both which, assorted alg arguments; route -- the rule reached for every alg class incl. "
                  "LOBPCG, SelfAdjoint / PSD declarations, sizes 1000 / 1001 around Auto's 10^6 threshold (spies raise, no numerics); "
@@ -1356,7 +1528,9 @@ def run(ctx):
         "violations_not_written": suppressed[0],
         "provisional_known": sorted(provisional),
         "finding_replays": finding_replays,
-        "not_covered": ["iteration caps below n (Ritz approximations, no eigenpair claim)", "the order numpy's unstable argsort "
+        "not_covered": ["iteration caps below n: only the Ritz statement of C10_lanczos_any_cap (Lanczos) / count and selection "
+                        "(Arnoldi) are claimed and compared -- no eigenpair of A, no accuracy of the Ritz values; the loop itself "
+                        "below n is C14's / C15's subject", "the order numpy's unstable argsort "
                         "gives members of exactly equal magnitude", "LOBPCG for n > 8 (scipy then iterates instead of its dense fallback) and max_iters < n - 1", "jax / torch backends",
                         "convergence of power iteration (claimed only after a stop by the tolerance test; the one-step claims "
                         "of C10_power_rayleigh / C10_power_monotone are checked on every run, also at the cap)"],
@@ -1386,6 +1560,12 @@ def run(ctx):
         "the Ritz values with the spectrum of A (C10_lanczos_spectrum, C10_lanczos_spectrum_of_grade) needs a run of n = dim "
         "steps (grade n, C14_grade) and the CONTRACT `eigh_independent` (eigh returns an invertible -- for LAPACK unitary -- "
         "eigenvector matrix of T; assumed)",
+        "round 5: eigh_contract / eigh_independent / eigh_contract_unit are no longer only assumed: they are OBSERVED on the projected "
+        "T of every real Lanczos run (distributions.eigh_independent: observed, ran_n_steps, max_orth_dev, min_smin, max_residual; "
+        "tolerance 1e-10); with ran_n_steps this is the whole hypothesis bundle of C10_lanczos_spectrum about the run; they remain "
+        "unproved of LAPACK",
+        "round 5: for max_iters < n the claim is C10_lanczos_any_cap (Properties/C10/CapsBelow.lean): Ritz pairs, extreme among the "
+        "computed Ritz values; C10_lanczos_cap_one_ritz_not_eigen shows a one-step Ritz value that is no eigenvalue",
         "the Krylov theorems C10_arnoldi_path / C10_lanczos_path cite C15_eigs_partial / C14_lanczos_eigs: exact arithmetic, "
         "clauses noClip / stopExact (C15 findings) resp. an exhausted Krylov space, tol > 0 for Arnoldi (tol = 0 is exercised "
         "by the generator, outside the theorem)",
